@@ -169,7 +169,21 @@ class Batch:
                             hit = ("mod", int(mm.group(1)), None)
                             break
                 code = (d.get("code") or {}).get("code")
-                entry = {"code": code, "message": d.get("message", ""), "rendered": (d.get("rendered") or "")[:1500]}
+                lines = []
+
+                def walk_lines(mm):
+                    for sp in mm.get("spans", []):
+                        if re.search(r"src/m/m\d+\.rs", sp.get("file_name", "")):
+                            lines.append(sp.get("line_start", 0))
+                        e2 = sp.get("expansion")
+                        while e2:
+                            if re.search(r"src/m/m\d+\.rs", e2["span"].get("file_name", "")):
+                                lines.append(e2["span"].get("line_start", 0))
+                            e2 = e2["span"].get("expansion")
+                    for ch in mm.get("children", []):
+                        walk_lines(ch)
+                walk_lines(d)
+                entry = {"code": code, "message": d.get("message", ""), "rendered": (d.get("rendered") or "")[:1500], "lines": lines}
                 if hit is None:
                     log(json.dumps(entry)[:2000])
                     raise ToolError("unattributable rustc error in batch %s" % self.tag)
